@@ -122,10 +122,23 @@ def triage(eng, ob, tier, seed, expected):
                     return
         except Exception as e:
             payload['native_error'] = str(e)
-    # model did not reproduce: search the domain natively
+    # model did not reproduce: search the domain natively, first in a
+    # neighbourhood of the solver's model (a model on the boundary of the
+    # failing region can flip under floating-point rounding), then at random
     n = 300 if tier == 'quick' else 2000
     rng = random.Random(seed + 17)
-    asgs = [eng.sample_assignment(specs, rng) for _ in range(n)]
+    asgs = []
+    if ob.model is not None:
+        reals = [k for k, v in ob.model.items() if isinstance(v, float)]
+        for j in range(160):
+            a = dict(ob.model)
+            rad = 10.0 ** rng.uniform(-9, -2)
+            for k in reals:
+                if rng.random() < 0.7 or len(reals) == 1:
+                    a[k] = a[k] + rng.choice((-1, 1)) * rad * max(
+                        abs(a[k]), 1e-3) * rng.random()
+            asgs.append(a)
+    asgs += [eng.sample_assignment(specs, rng) for _ in range(n)]
     jobs = [eng.job_for(c, specs, a, [nclause]) for a in asgs]
     found = None
     ok = 0
